@@ -6,6 +6,7 @@ import (
 	"context"
 	"errors"
 	"fmt"
+	"sync"
 	"time"
 
 	"github.com/NethermindEth/juno/blockchain"
@@ -35,7 +36,33 @@ type Step struct {
 	// numRetainedBlocks of the pruner.Pruner that runs this prune step (scenarios with ViaPruner):
 	// the L1 head it is sent is PruneTo + Retained
 	Retained uint64
-	After    World
+	// a prune step driven through the L2 path of the Pruner service (Pruner.onNewBlock): instead of an
+	// L1-head event the service (a new Pruner: counter 0, l2HeadsPerPrune = L2Per) receives these
+	// L2-head events (numbers of the blocks they carry), one after the other; PruneTo is the retention
+	// floor the burst must leave (the floor before the step when no event may prune)
+	L2    []uint64
+	L2Per uint64
+	// set by the fault-free run: the real sweep of this prune step committed exactly the batches the
+	// model's sweep does (one per block), so a fault at batch k is the model's fault at batch k
+	ModelBatches bool
+	After        World
+}
+
+// pruneTarget: the target a prune step asks for, whatever the node's present floor (an L2 burst
+// may ask for nothing: every event dropped or only counted).
+func (s *Step) pruneTarget(before *World) (uint64, bool) {
+	if len(s.L2) == 0 {
+		return s.PruneTo, true
+	}
+	pending, best, any := uint64(0), uint64(0), false
+	for _, num := range s.L2 {
+		t, ok, nx, _ := specL2(before.L1, before.Height(), num, s.Retained, s.L2Per, pending)
+		pending = nx
+		if ok && (!any || t > best) {
+			best, any = t, true
+		}
+	}
+	return best, any
 }
 
 func (s *Step) batchBytes() int {
@@ -61,6 +88,9 @@ func (s *Step) String() string {
 	case "l1head":
 		return fmt.Sprintf("l1head(%d)", s.L1.BlockNumber)
 	case "prune":
+		if len(s.L2) > 0 {
+			return fmt.Sprintf("l2events(%v per=%d retained=%d)->prune(<%d)", s.L2, s.L2Per, s.Retained, s.PruneTo)
+		}
 		return fmt.Sprintf("prune(<%d)", s.PruneTo)
 	}
 	return s.Op
@@ -258,6 +288,9 @@ var errPrunerIdle = errors.New("harness: the pruner did not answer the L1-head e
 // oldestBlockToKeep = l1 - numRetainedBlocks, pruneUpto raises the shared floor and runs the
 // multi-batch sweep. The listener callbacks tell when the event has been handled.
 func (n *Node) pruneViaPruner(s *Step) error {
+	if len(s.L2) > 0 {
+		return n.pruneViaL2(s)
+	}
 	l1Feed, l2Feed := feed.New[*core.L1Head](), feed.New[*core.Block]()
 	done := make(chan error, 4)
 	lst := &pruner.SelectiveListener{
@@ -279,6 +312,62 @@ func (n *Node) pruneViaPruner(s *Step) error {
 	cancel()
 	<-fin
 	return err
+}
+
+// pruneViaL2 drives a prune step through the L2 path of the Pruner service: a NEW pruner.Pruner
+// (pendingL2Heads = 0) sharing the process' RetentionFloor receives the step's L2-head events one
+// after the other on its new-head feed; onNewBlock applies its guards (no L1 head on disk, L1 head not
+// above the block, block below numRetainedBlocks, stale event: block above the chain height), counts
+// the event, and at the l2HeadsPerPrune-th counted event calls pruneUpto(num - numRetainedBlocks).
+// Events that are dropped produce no callback, so completion is observed on the feed itself: the
+// subscription buffers ONE event and Run handles events sequentially — when the buffer is empty the
+// event has been taken, and when a following sentinel (an L1 head 0: dropped by the guards or a
+// PruneUpto(0), which writes nothing) has been taken too, the handler of the last L2 event has
+// returned. Only then is the context cancelled (the sweep polls it). Returns the first prune error.
+func (n *Node) pruneViaL2(s *Step) error {
+	l1Feed, l2Feed := feed.New[*core.L1Head](), feed.New[*core.Block]()
+	var mu sync.Mutex
+	var errs []error
+	lst := &pruner.SelectiveListener{
+		OnPruneErrorCb: func(err error) { mu.Lock(); errs = append(errs, err); mu.Unlock() },
+	}
+	l2Sub, l1Sub := l2Feed.Subscribe(), l1Feed.Subscribe()
+	opts := []pruner.Option{pruner.WithTargetBatchByteSize(s.batchBytes()), pruner.WithListener(lst)}
+	if s.L2Per > 0 {
+		// (0 = the Pruner's own default, defaultL2HeadsPerPrune)
+		opts = append(opts, pruner.WithL2HeadsPerPrune(s.L2Per))
+	}
+	p := pruner.New(n.fdb, n.floor, s.Retained, l2Sub, l1Sub, log.NewNopZapLogger(), opts...)
+	ctx, cancel := context.WithCancel(context.Background())
+	fin := make(chan error, 1)
+	go func() { fin <- p.Run(ctx) }()
+	deadline := time.Now().Add(20 * time.Minute)
+	idle := false
+	taken := func(pending func() int) {
+		for pending() > 0 && !idle {
+			if time.Now().After(deadline) {
+				idle = true
+			}
+			time.Sleep(20 * time.Microsecond)
+		}
+	}
+	for _, num := range s.L2 {
+		l2Feed.Send(&core.Block{Header: &core.Header{Number: num}})
+		taken(func() int { return len(l2Sub.Recv()) })
+	}
+	l1Feed.Send(&core.L1Head{BlockNumber: 0})
+	taken(func() int { return len(l1Sub.Recv()) })
+	cancel()
+	<-fin
+	if idle {
+		return errPrunerIdle
+	}
+	mu.Lock()
+	defer mu.Unlock()
+	if len(errs) > 0 {
+		return errs[0]
+	}
+	return nil
 }
 
 // storeTampered calls Store with the step's (tampered) block and the commitments of the honest one.
@@ -499,6 +588,62 @@ func (b *builder) l1head() {
 	bl := b.g.Bundles[n].Block
 	b.l1 = &core.L1Head{BlockNumber: uint64(n), BlockHash: bl.Hash, StateRoot: bl.GlobalStateRoot}
 	b.push(Step{Op: "l1head", L1: b.l1})
+}
+
+// l1headAt sets the L1 head to an arbitrary number (a node that is catching up has an L1 head far
+// above its own chain: the pruner's L2 path then drives the retention floor).
+func (b *builder) l1headAt(n uint64) {
+	l1 := &core.L1Head{BlockNumber: n, BlockHash: lib.F(0x11000000 + n), StateRoot: lib.F(0x12000000 + n)}
+	if int(n) < len(b.g.Bundles) {
+		bl := b.g.Bundles[n].Block
+		l1.BlockHash, l1.StateRoot = bl.Hash, bl.GlobalStateRoot
+	}
+	b.l1 = l1
+	b.push(Step{Op: "l1head", L1: b.l1})
+}
+
+// specL2 is what an L2-head event must do (the property's reading of Pruner.onNewBlock: the pruner
+// acts only on blocks of the present chain, below the L1 head, never prunes the head, coalesces
+// l2HeadsPerPrune events): the prune target (ok = the event prunes) and the counter afterwards.
+func specL2(l1 *core.L1Head, height int, num, retained, per, pending uint64) (target uint64, prunes bool, next uint64, class string) {
+	switch {
+	case l1 == nil:
+		return 0, false, pending, "no-l1-head"
+	case l1.BlockNumber <= num:
+		return 0, false, pending, "l1-not-above"
+	case num < retained:
+		return 0, false, pending, "below-retained"
+	case height < 0:
+		return 0, false, pending, "empty-chain"
+	case num > uint64(height):
+		return 0, false, pending, "stale"
+	case pending+1 < per:
+		return 0, false, pending + 1, "counted"
+	}
+	return num - retained, true, 0, "prunes"
+}
+
+// pruneL2: a prune step through the L2 path (ViaPruner scenarios): the events nums go to a new
+// Pruner with numRetainedBlocks = retained and l2HeadsPerPrune = per.
+func (b *builder) pruneL2(nums []uint64, retained, per uint64, batchBytes int) {
+	if !b.sc.ViaPruner {
+		panic("harness: L2-head events need a scenario that runs through the Pruner service")
+	}
+	pending, prunes := uint64(0), 0
+	for _, num := range nums {
+		t, ok, nx, _ := specL2(b.l1, b.g.Height()-1, num, retained, per, pending)
+		pending = nx
+		if ok {
+			if t > b.flr {
+				prunes++
+				b.flr = t
+			}
+		}
+	}
+	if prunes > 1 {
+		panic("harness: more than one event of an L2 burst prunes (one fault position per step)")
+	}
+	b.push(Step{Op: "prune", PruneTo: b.flr, BatchBytes: batchBytes, Retained: retained, L2: append([]uint64(nil), nums...), L2Per: per})
 }
 
 func (b *builder) simple(op string) { b.push(Step{Op: op}) }
